@@ -390,6 +390,36 @@ func mxRanges() *gen.Program {
 			}
 		}
 	}
+	// the operands are evaluated once: a body that reassigns the variable a bound or the step was
+	// read from does not change the iteration
+	for k, t := range []*gen.Type{gen.I32, gen.I64, gen.I16, gen.U8} {
+		n++
+		lo, hi, st := fmt.Sprintf("mlo%d", n), fmt.Sprintf("mhi%d", n), fmt.Sprintf("mst%d", n)
+		lov, hiv, stv := &gen.Var{Name: lo, T: t}, &gen.Var{Name: hi, T: t}, &gen.Var{Name: st, T: t}
+		m = append(m, &gen.Let{Name: lo, T: t, Init: mxLit(t, 1), Annot: true}, &gen.Let{Name: hi, T: t, Init: mxLit(t, 9), Annot: true}, &gen.Let{Name: st, T: t, Init: mxLit(t, 2), Annot: true})
+		vv := &gen.Var{Name: fmt.Sprintf("mv%d", n), T: t}
+		var body []gen.Stmt
+		body = append(body, &gen.Print{X: vv})
+		switch k % 4 {
+		case 0:
+			body = append(body, &gen.Assign{LHS: hiv, Op: "=", RHS: &gen.Bin{Op: "-", L: hiv, R: mxLit(t, 3), T: t}})
+		case 1:
+			body = append(body, &gen.Assign{LHS: stv, Op: "=", RHS: &gen.Bin{Op: "+", L: stv, R: mxLit(t, 5), T: t}})
+		case 2:
+			body = append(body, &gen.Assign{LHS: lov, Op: "=", RHS: mxLit(t, 7)}, &gen.Assign{LHS: hiv, Op: "=", RHS: mxLit(t, 2)})
+		default:
+			body = append(body, &gen.Assign{LHS: hiv, Op: "=", RHS: mxLit(t, 100)}, &gen.Assign{LHS: stv, Op: "=", RHS: mxLit(t, 1)})
+		}
+		body = append(body, &gen.Assign{LHS: cnt, Op: "=", RHS: &gen.Bin{Op: "+", L: cnt, R: mxLit(gen.I32, 1), T: gen.I32}})
+		m = append(m, &gen.ForRange{Var: vv.Name, T: t, Lo: lov, Hi: hiv, Step: stv, Incl: k%2 == 0, Body: body}, &gen.Print{X: cnt}, &gen.Print{X: lov}, &gen.Print{X: hiv}, &gen.Print{X: stv})
+		// and a plain loop whose end variable shrinks in the body
+		n++
+		hi2 := &gen.Var{Name: fmt.Sprintf("mhi%d", n), T: t}
+		v2 := &gen.Var{Name: fmt.Sprintf("mv%d", n), T: t}
+		m = append(m, &gen.Let{Name: hi2.Name, T: t, Init: mxLit(t, 6), Annot: true},
+			&gen.ForRange{Var: v2.Name, T: t, Lo: mxLit(t, 0), Hi: hi2, Body: []gen.Stmt{&gen.Print{X: v2}, &gen.Assign{LHS: hi2, Op: "=", RHS: &gen.Bin{Op: "-", L: hi2, R: mxLit(t, 1), T: t}}}},
+			&gen.Print{X: hi2})
+	}
 	p.Main = m
 	return p
 }
